@@ -548,14 +548,42 @@ def gen_rows(rng, small=False):
     return rows
 
 
+def random_partition(rng, rows, s, e, k):
+    """a contiguous well-formed chunking of [s, e) holding `rows` with (at most) k chunks: cut times are taken
+    at the ends of row-free stretches (or in their middle), where no row is straddled"""
+    cands = []
+    for i, lo, hi in c07.clean_cuts(rows):
+        lo = s if lo is None else lo
+        hi = e if hi is None else hi
+        for t in {lo, hi, (lo + hi) // 2}:
+            if s <= t <= e:
+                cands.append((t, i))
+    for _ in range(20):
+        combo = sorted(rng.choice(cands) for _ in range(k - 1)) if cands else []
+        bounds = [(s, 0)] + combo + [(e, len(rows))]
+        parts = []
+        ok = True
+        for (t0, i0), (t1, i1) in zip(bounds[:-1], bounds[1:]):
+            if i1 < i0 or t1 < t0:
+                ok = False
+                break
+            part = rows[i0:i1]
+            if any(r[0] < t0 or r[1] > t1 for r in part):
+                ok = False
+                break
+            parts.append((t0, t1, part))
+        if ok:
+            return parts
+    return [(s, e, rows)]
+
+
 def gen_stream(rng, small=False, tgt=None):
     rows = gen_rows(rng, small)
     lo = min([r[0] for r in rows], default=rng.randint(0, 5))
     hi = max([r[1] for r in rows], default=lo)
     s = max(0, lo - rng.choice([0, 0, 1, 700, 2000]))
     e = hi + rng.choice([0, 0, 1, 7, 1500])
-    parts = c07.partitions(rng, rows, s, e, exhaustive=False, kmax=rng.choice([1, 2, 3, 4, 5]))
-    part = rng.choice(parts)
+    part = random_partition(rng, rows, s, e, rng.choice([1, 2, 3, 4, 5]))
     tgt = tgt or rng.choice([1, 1, 2, 3, 5, 8, 1000])
     st = [c07.achunk(a, b, p, tgt=tgt) for a, b, p in part]
     if rng.random() < 0.3 and st:
@@ -761,7 +789,7 @@ def cfg_key(case, r):
 
 def unit_roundtrip(ctx, pool):
     cases = []
-    n = 4000 if ctx.thorough else (1500 if ctx.escalated() else 400)
+    n = 8000 if ctx.thorough else (1500 if ctx.escalated() else 700)
     # systematic sweep: every compressor x dtype x rechunk x executor on small streams
     for comp in range(4):
         for v in range(4):
@@ -779,14 +807,14 @@ def unit_roundtrip(ctx, pool):
 
 def unit_malformed(ctx, pool):
     cases = []
-    for _ in range(1000 if ctx.thorough else 160):
+    for _ in range(2000 if ctx.thorough else 250):
         st = gen_stream(ctx.rng, small=ctx.rng.random() < 0.5)
         st, kind = malform(ctx.rng, st)
         case = base_case(ctx.rng, st, ai=ctx.rng.choice([0, 0, 1]), driver="save_from")
         case["kind"] = kind
         cases.append(case)
     # metadata handed to the saver that disagrees with the chunks, and allow_incomplete on good data
-    for _ in range(200 if ctx.thorough else 40):
+    for _ in range(400 if ctx.thorough else 50):
         st = gen_stream(ctx.rng, small=True)
         case = base_case(ctx.rng, st, ai=ctx.rng.randint(0, 1))
         if ctx.rng.random() < 0.5:
@@ -798,7 +826,7 @@ def unit_malformed(ctx, pool):
 
 def unit_tamper(ctx, pool):
     cases = []
-    for _ in range(2000 if ctx.thorough else 300):
+    for _ in range(4000 if ctx.thorough else 450):
         st = gen_stream(ctx.rng, small=ctx.rng.random() < 0.5)
         case = base_case(ctx.rng, st, ai=ctx.rng.choice([0, 0, 0, 1]), driver="save_from")
         t = gen_tamper(ctx.rng, len(st))
@@ -814,13 +842,13 @@ def unit_tamper(ctx, pool):
 
 def unit_forked(ctx, pool):
     cases = []
-    n = 300 if ctx.thorough else 50
+    n = 600 if ctx.thorough else 60
     for i in range(n):
         st = gen_stream(ctx.rng, small=True)
         order = list(range(len(st)))
         ctx.rng.shuffle(order)
         case = base_case(ctx.rng, st, forked=1, order=order, driver="save_from", rechunk=0, sexec=0)
-        case["realfork"] = 1 if i < (20 if ctx.thorough else 4) else 0     # real child processes for a few
+        case["realfork"] = 1 if i < (40 if ctx.thorough else 4) else 0     # real child processes for a few
         cases.append(case)
     run_batch(ctx, "forked", cases, lambda c, r: len(c["stream"]) >= 2,
               lambda c, r: "children=%d%s save=%s load=%s" % (len(c["order"]), " fork" if c.get("realfork") else "", r["save"], r["load"]), pool)
